@@ -299,7 +299,7 @@ func init() {
 				s.Flavour = fl
 				s.N = m
 				s.Args["setup"], s.Args["cap"], s.Args["g"] = fmt.Sprint(setup), capN, fmt.Sprint(g)
-				s.TimeoutS = 1200
+				s.TimeoutS = int(d.Pick(300, 1200))
 				specs = append(specs, s)
 			}
 			for su := 0; su < ns; su++ {
